@@ -981,6 +981,11 @@ def getitem(interp, o, k):
         return mk_int(b.at(idx))
     if isinstance(o, dict):
         if is_symbolic(k):
+            for x in o:
+                if x is k:
+                    return o[x]
+            if not o:
+                interp.throw(KeyError, k)
             raise Unsupported('dict lookup with symbolic key')
         try:
             if k in o:
@@ -1023,10 +1028,21 @@ def getitem(interp, o, k):
     raise Unsupported('subscript of %r' % (o,))
 
 
+def _sym_key_ok(interp, o, k):
+    """A dict may hold ONE symbolic key, by identity, and nothing else:
+    with a single key no aliasing question can arise."""
+    others = [x for x in o if x is not k]
+    if others:
+        raise Unsupported('dict with a symbolic key next to other keys')
+    interp.trusted.add('dict with a single symbolic key (by identity)')
+
+
 def setitem(interp, o, k, v):
     if isinstance(o, dict):
         if is_symbolic(k):
-            raise Unsupported('dict store with symbolic key')
+            _sym_key_ok(interp, o, k)
+        elif any(is_symbolic(x) for x in o):
+            raise Unsupported('dict with a symbolic key next to other keys')
         o[k] = v
         return
     if isinstance(o, list):
